@@ -159,6 +159,7 @@ package iam
 //@        && arg(call (storage.SessionStore).Get #1, 1) == ret(call extractNonce #1).0
 //@   ensures [always-burned] ret(call extractNonce #1).0 != "" ==> did(call (storage.SessionStore).Put #1) && arg(call (storage.SessionStore).Put #1, 1) == ret(call extractNonce #1).0
 //@   ensures [store-failure-is-reported] did(call (storage.SessionStore).Put #1) && !isNilIface(ret(call (storage.SessionStore).Put #1)) ==> !isNilIface(result)
+//@   ensures [check-and-mark-are-one-step] isNilIface(result) ==> did(call (*sync.Mutex).Lock #1) || did(call (sync.Locker).Lock #1)
 
 //@ func extractNonce
 //@   prop C02 C19
@@ -290,9 +291,15 @@ package iam
 //@ func (OAuthSession).redirectURI
 //@   prop C02
 //@   assume-benign
+// Success only if the (single, common) nonce was taken out of the nonce store by this request and
+// the state stored with it is the state presented.
 //@ func (Wrapper).validatePresentationNonce
 //@   prop C02 C05
 //@   assume-benign
+//@   loop 1 invariant true
+//@   loop 2 invariant true
+//@   ensures [nonce-taken-and-bound-to-the-state] isNilIface(result) ==> did(call (storage.SessionStore).GetAndDelete #1) && isNilIface(ret(call (storage.SessionStore).GetAndDelete #1))
+//@        && len(nonces) == 1 && arg(call (storage.SessionStore).GetAndDelete #1, 1) == nonces[0] && state == stateFromNonce
 //@ func withCallbackURI
 //@   prop C02
 //@   assume-benign
@@ -324,3 +331,37 @@ package iam
 //@   call (storage.SessionStore).Put #2 requires [code-only-when-nothing-is-left-to-fulfil]
 //@        isNilIface(ret(call (*PEXConsumer).fulfill #1)) && ret(call (*PEXConsumer).next #1).0 == nil
 //@        && arg(1) == ret(call crypto.GenerateNonce #1) && typeOf(arg(2)) == OAuthSession
+
+// ---- C05: the remaining one-time values ----
+
+//@ func (Wrapper).authzRequestObjectStore
+//@   prop C05
+//@   assume-benign
+//@   ensures !isNilIface(result)
+//@ func (Wrapper).useNonceOnceStore
+//@   prop C05
+//@   assume-benign
+//@   ensures !isNilIface(result)
+//@ func (JAR).Sign
+//@   trusted
+//@   benign
+
+// A request object is signed and handed out only after this request took it out of the store.
+//@ func (Wrapper).RequestJWTByGet
+//@   prop C05
+//@   call (JAR).Sign #1 requires [request-object-taken-by-this-request] isNilIface(ret(call (storage.SessionStore).GetAndDelete #1))
+//@        && arg(call (storage.SessionStore).GetAndDelete #1, 1) == request.Id && ro.RequestURIMethod == "get"
+//@   ensures [object-only-after-signing] isNilIface(result.1) ==> did(call (JAR).Sign #1) && isNilIface(ret(call (JAR).Sign #1).1)
+
+// A DPoP proof is reported valid only if its jti was not in the store, and the jti is stored before
+// "valid" is reported. The look-up and the store are two separate operations (clause
+// check-and-mark-are-one-step fails on the pinned tree: known finding).
+//@ func (Wrapper).ValidateDPoPProof
+//@   prop C05
+//@   requires request.Body != nil
+//@   ensures [valid-only-for-an-unseen-jti-that-is-then-recorded] isNilIface(result.1) && typeOf(result.0) == ValidateDPoPProof200JSONResponse && result.0.(ValidateDPoPProof200JSONResponse).Valid ==>
+//@        did(call (storage.SessionStore).Get #1) && !isNilIface(ret(call (storage.SessionStore).Get #1)) && ret(call errors.Is #1) == true
+//@        && did(call (storage.SessionStore).Put #1) && isNilIface(ret(call (storage.SessionStore).Put #1))
+//@        && arg(call (storage.SessionStore).Put #1, 1) == arg(call (storage.SessionStore).Get #1, 1)
+//@   ensures [check-and-mark-are-one-step] isNilIface(result.1) && typeOf(result.0) == ValidateDPoPProof200JSONResponse && result.0.(ValidateDPoPProof200JSONResponse).Valid ==>
+//@        did(call (*sync.Mutex).Lock #1) || did(call (sync.Locker).Lock #1)
